@@ -868,6 +868,10 @@ class TunnelCommunity(Community):
             if request.from_circuit_id not in self.exit_sockets:
                 self.logger.info("Created for unknown exit socket %s", request.from_circuit_id)
                 return
+            created_request = self.request_cache.get(CreatedRequestCache, request.from_circuit_id)
+            if created_request is not None and created_request.extend_identifier != request.extend_identifier:
+                self.logger.info("Ignoring created for a superseded extend attempt on circuit %s", request.from_circuit_id)
+                return
             session_keys = self.exit_sockets[request.from_circuit_id].hop.keys
             self.remove_exit_socket(request.from_circuit_id, remove_now=True)
 
